@@ -15,7 +15,7 @@ TypeScript SRP line count (end_row - start_row + 1 counts blank lines: layout-se
 
 Model of str.strip (trusted, stated as `assert` in the spec functions below and re-checked natively on every replay):
 strip() removes a whitespace-only suffix, i.e. ws.strip() == "" implies (s + ws).strip() == s.strip()."""
-from pyvc.api import contract, lemma, Int, Bool, Str, SeqOf, Opt, Rec, implies, call, mk, ih, reveal, use, opaque
+from pyvc.api import contract, lemma, Int, Bool, Str, SeqOf, Opt, Rec, TupleOf, implies, call, mk, ih, reveal, use, opaque
 from contracts._common import ViolationT
 from contracts._nodes import PyNode, TSNode
 from contracts.c16_srp import py_is_code_line, py_code_line_count, py_class_lines
@@ -290,3 +290,75 @@ def rs_node_loc_insert(self, n1, s1, n2, s2, pre, ins, post):
     use(seq_decompose, pre)
     use(rcc_insert, pre, ins, post, pre[0] if len(pre) > 0 else "", pre[1:])
     return call(RS_NODE_LOC, self, n1, s1) == call(RS_NODE_LOC, self, n2, s2)
+
+
+# ================================================================== count_loc, C13 view: the count is layout-insensitive line by line
+import ast  # noqa: E402
+from contracts.c16_srp import py_loc_lemma  # noqa: E402
+
+LAYOUT_SAMPLE = ("class Sample:", "", "    ", "\t", "    # comment", "# comment at column 0", "    x = 1", "    y = 2   ",
+                 "    z = 3\r", "\r", "    #", "    def m(self):  # trailing comment", "        return self.x", "  \t  ")
+
+
+@contract(COUNT_LOC + "~layout", props=["C13"], types=dict(class_node=PyNode, source=Str), returns=Int)
+class CountLocLayoutView:
+    """C13 wording of the count: a line counts iff, AFTER stripping surrounding whitespace, it is non-empty and not a
+    comment -- so blank lines, whitespace-only lines (an 'empty' line that received trailing blanks, an indented
+    separator line, the lone '\\r' of a CRLF blank line) and comment-only lines at any indentation never count, and
+    trailing whitespace never changes whether a line counts. (Same value as the C16 clause in c16_srp.py; stated again
+    here so that C13 has its own obligation and a concrete layout sample.)"""
+    def native_domain(class_node, source):
+        return isinstance(class_node, ast.ClassDef)
+
+    def requires(class_node, source):
+        return class_node is not None
+
+    def lemmas_counts_exactly_the_lines_that_are_code_after_stripping(class_node, source):
+        return py_loc_lemma(py_class_lines(class_node, source))
+
+    def ensures_counts_exactly_the_lines_that_are_code_after_stripping(class_node, source, result):
+        return result == py_code_line_count(py_class_lines(class_node, source))
+
+    def witness_counts_exactly_the_lines_that_are_code_after_stripping():
+        # one class text with every layout category of a line (used only when the solver cannot decide the clause:
+        # the REAL function is run on it and the clause evaluated natively)
+        return {"class_node": {"__node__": "c", "kind_": "ClassDef", "name": "Sample", "lineno": 1,
+                               "end_lineno": len(LAYOUT_SAMPLE), "col_offset": 0, "body": [], "decorator_list": [],
+                               "bases": [], "keywords": []},
+                "source": "\n".join(LAYOUT_SAMPLE)}
+
+
+# ================================================================== DRY tokenizer: blank / comment-only lines are transparent
+from contracts import c03_windows  # noqa: E402,F401  (contracts of token_hasher.normalize_line / should_skip_import_line)
+from contracts.c03_windows import norm, track, NumLineT  # noqa: E402
+
+DRY_PY = "src/linters/dry/python_analyzer.py::PythonDuplicateAnalyzer."
+DRY_TS = "src/linters/dry/typescript_analyzer.py::TypeScriptDuplicateAnalyzer."
+
+
+@contract(DRY_PY + "_normalize_and_filter_line~layout", props=["C13"], types=dict(line=Str, in_multiline_import=Bool),
+          returns=TupleOf(Bool, Opt(Str)))
+class PyNormalizeAndFilterLineLayout:
+    """One step of the line-tracking state machine. C13: a line that normalises to nothing -- blank, whitespace-only or
+    comment-only -- contributes no token AND leaves the 'inside a parenthesised multi-line import' state exactly as it
+    was, so inserting such a line anywhere (also between the names of a multi-line import) cannot change which of the
+    following lines are tokenised."""
+    def ensures_blank_or_comment_only_line_is_transparent(line, in_multiline_import, result):
+        return implies(len(norm(line)) == 0, result[0] == in_multiline_import and result[1] is None)
+
+
+@contract(DRY_TS + "_normalize_and_filter_line~layout", props=["C13"], types=dict(line=Str, in_multiline_import=Bool),
+          returns=TupleOf(Bool, Opt(Str)))
+class TsNormalizeAndFilterLineLayout:
+    def ensures_blank_or_comment_only_line_is_transparent(line, in_multiline_import, result):
+        return implies(len(norm(line)) == 0, result[0] == in_multiline_import and result[1] is None)
+
+
+@lemma(props=["C13"], types=dict(k=Int, line=Str, rest=SeqOf(NumLineT), in_multi=Bool),
+       name="line-tracking-skips-a-blank-or-comment-only-line-in-any-state")
+def track_skips_blank(k, line, rest, in_multi):
+    """The fold of that step over the numbered lines (spec `track` of c03_windows.py, proved equal to
+    _tokenize_with_line_numbers there): a blank / comment-only line in front of `rest` changes nothing, whatever the
+    import state."""
+    reveal(track, [(k, line)] + rest, in_multi)
+    return implies(len(norm(line)) == 0, track([(k, line)] + rest, in_multi) == track(rest, in_multi))
